@@ -27,14 +27,14 @@ def replay_case(prop, rep):
 
 
 def write_replay(prop, obl_name, case, fail, seed, tier, tag='viol'):
-    d = os.path.join(VERIF, 'replays', prop)
+    d = os.path.join(os.environ.get('VP_REPLAY_DIR') or os.path.join(VERIF, 'replays'), prop)
     os.makedirs(d, exist_ok=True)
     h = core.case_hash(dict(case=case, rel=fail['relation']))
     path = os.path.join(d, '%s-%s-%s.json' % (tag, obl_name.replace('/', '_'), h))
     with open(path, 'w') as f:
         json.dump(dict(property=prop, obligation=obl_name, case=case, failure=fail,
                        seed=seed, tier=tier), f, indent=1, sort_keys=True)
-    return os.path.relpath(path, VERIF)
+    return os.path.relpath(path, VERIF) if path.startswith(VERIF + os.sep) else path
 
 
 def main(argv=None):
